@@ -1,4 +1,4 @@
-HOOK_COMMITS = []
+HOOK_COMMITS = ["3d3f887"]
 
 PROOF_NOTE = ("Trusted: Lean 4.33.0 kernel; axioms propext/Quot.sound/Classical.choice only (audited on every run by "
               "#print axioms; no sorry/native_decide/bv_decide). The theorems are about the hand-written model in "
@@ -121,6 +121,20 @@ META.update({
     },
 })
 
+META.update({
+    "C18": {
+        "text": "Proof: pool.go/hmac.go are modelled parametrically in the hash; resetTo establishes the keyed invariant from "
+                "EVERY previous object state (stale pads, stale absorbed data, stale marshaled flag); Write/Sum/Reset "
+                "preserve it; hence every Sum in every operation sequence after an acquire returns in ++ RFC 2104 "
+                "HMAC(key, data since last reset), for every chunking and key length (induction over the history). "
+                "Correspondence: the driver instantiates the model with Lean SHA-1/SHA-256 written from the RFCs and "
+                "compares digests with the real pooled objects over random histories; concurrent use under -race.",
+        "note": PROOF_NOTE + "Assumed: sync.Pool exclusivity; marshal/unmarshal round trip of Go's hash states (modelled as "
+                "capturing the absorbed bytes). Hook: build tag verif re-exports internal/hmac.",
+        "technique": "Lean 4 invariant proof over all histories, parametric in the hash + differential correspondence",
+    },
+})
+
 NOT_APPLICABLE = {p: "check not built yet in this round (see DESIGN.md §4 for the plan)" for p in
                   ["C10", "C11", "C12", "C14", "C15", "C16", "C17",
-                   "C18", "C20"]}
+                   "C20"]}
